@@ -45,7 +45,7 @@ for i, n, ulen, ulen2 in shapes:
     c14["units"].append(unit("H14-enc-" + n, "all AppendFlags subsets (shape %s)" % n, "vfH_c14_enc", g, ["done"], split={"all": 6}))
 rt_shapes = [x for x in shapes if x[0] in (0, 1, 2, 3, 4, 5, 6, 7, 9, 10)]
 for i, n, ulen, ulen2 in rt_shapes:
-    g = {"vfShape": {"all": [i]}, "vfRT": {"all": [1]}, "vfLen": lens(ulen, [1], [0, 1, 2]), "vfLen2": lens(ulen2, [2], [0, 2, 3]), "vfFlags": {"quick": [15, 5], "thorough": "0..15"}}
+    g = {"vfShape": {"all": [i]}, "vfRT": {"all": [1]}, "vfLen": lens(ulen, [1], [0, 1, 2]), "vfLen2": lens(ulen2, [2], [0, 2, 3]), "vfFlags": {"quick": [15, 5], "thorough": [0, 1, 2, 4, 8, 15, 5, 10]}}
     c14["units"].append(unit("H14-dec-" + n, "Parse(default output, subset of DontCopyString|DontCopyNumber|DontCopyRawMessage|DontMatchCaseInsensitiveStructFields) restores the value (shape %s)" % n, "vfH_c14_dec", g, ["done"], split={"all": 6}))
 c14["units"].append(unit("H14-num-free", "all 16 subsets of UseNumber|UseBigInt|UseInt64|UseUint64 on every valid number literal of the length parsed into an interface: dynamic type by documented precedence, value preserved", "vfH_c14_num",
                          {"vfMode": {"all": [0]}, "vfLen": {"quick": "1..3", "thorough": "1..4"}, "vfFlags": {"all": "0..15"}}, ["uint64", "int64", "big", "Number", "float64"]))
